@@ -64,6 +64,31 @@ func (t *tparser) val() TVal {
 			}
 		}
 		return TVal{Kind: "rec", R: r}
+	case c == '(':
+		// function literal (k :> v @@ k2 :> v2)
+		t.p++
+		r := map[string]TVal{}
+		for {
+			t.ws()
+			if t.s[t.p] == ')' {
+				t.p++
+				break
+			}
+			k := t.val()
+			t.ws()
+			t.p += 2 // :>
+			v := t.val()
+			key := k.S
+			if k.Kind == "int" {
+				key = strconv.Itoa(k.I)
+			}
+			r[key] = v
+			t.ws()
+			if strings.HasPrefix(t.s[t.p:], "@@") {
+				t.p += 2
+			}
+		}
+		return TVal{Kind: "fun", R: r}
 	case c == '"':
 		j := strings.IndexByte(t.s[t.p+1:], '"')
 		v := t.s[t.p+1 : t.p+1+j]
